@@ -138,3 +138,16 @@ def doc_nontrivial(ms):
             if pos != 'top' and k != 'null':
                 return True
     return False
+
+
+def sized_cases(tier, shard, of, extra=None):
+    """size sweep shared by C01-C07: (case, labels) with one dimension of the document pushed over a boundary"""
+    from . import gen
+    for i, (axis, n, ver) in enumerate(gen.sized_points(tier)):
+        if i % of != shard:
+            continue
+        ms, single = gen.sized_doc(axis, n, ver)
+        case = {'kind': 'doc', 'single': single, 'grids': ms, 'sized': [axis, n, ver]}
+        if extra:
+            case.update(extra)
+        yield case, ('size:%s' % axis, 'size:%s>=%d' % (axis, 10 ** (len(str(n)) - 1)))
